@@ -99,10 +99,15 @@ def make_trace(tid, rng, nops=25, **opt):
         esz = 16 if ext else 8
         l2_real = cs // esz
         nc = rng.randrange(3 * l2_real, 6 * l2_real) if not ext else rng.randrange(l2_real, 2 * l2_real)
-    elif opt.get("many"):  # more L2 tables than the 128-entry L2 cache holds
+    elif opt.get("many") in ("big", True):  # more L2 tables than the 128-entry L2 cache holds
         ext, cb = False, 9
         cs, esz, l2_real = 512, 8, 64
         nc = rng.randrange(8400, 9000)
+    runs = opt.get("many") == "runs"
+    if runs:  # long runs of each kind of cluster, 1 MiB clusters
+        ext, cb = rng.random() < 0.3, 20
+        cs, esz = 1 << cb, 16 if ext else 8
+        l2_real, nc = cs // esz, rng.randrange(48, 72)
     datafile = rng.random() < 0.25 or bool(opt.get("datafile"))
     npos = nc + 2
     pos = list(range(0 if datafile else 1, npos + 1))
@@ -110,12 +115,21 @@ def make_trace(tid, rng, nops=25, **opt):
         rng.shuffle(pos)
     ncomp = 0
     t, h, al, ze = [], [], [], []
-    for _ in range(nc):
+    if runs:
+        plan = diskprop.run_plan(rng, nc, ["U", "Zx", "N", "Nr"] if ext else ["U", "ZP", "ZA", "ZAr", "N", "Nr"])
+        pp, _ = diskprop.run_positions(plan, first=0 if datafile else 1, data=("N", "Nr", "ZA", "ZAr"))
+    for c_ in range(nc):
         if ext:
             k = rng.choice(["U", "N", "N", "N"] + ([] if datafile else ["C"]))
         else:
             k = rng.choice(["U", "ZP", "ZA", "N", "N"] + ([] if datafile else ["C"]))
         a = z = 0
+        if runs:
+            k = plan[c_].rstrip("r")
+            if k == "Zx":   # extended L2: every sub-cluster reads as zeroes, the cluster itself allocated or not
+                k = rng.choice(["U", "N"])
+                pos.insert(0, npos + 1 + c_)
+            pos.insert(0, pp[c_] if pp[c_] is not None else pos[0])
         if k in ("N", "ZA"):
             hh = pos.pop(0)
         elif k == "C":
@@ -138,6 +152,8 @@ def make_trace(tid, rng, nops=25, **opt):
                 z = rng.choice([0, ((1 << lo) - 1), ~((1 << hi) - 1) & 0xFFFFFFFF])
             if k == "U":
                 a = 0
+            if runs:   # whole clusters: all sub-clusters present / all zero / none
+                a, z = (0xFFFFFFFF, 0) if plan[c_] in ("N", "Nr") else (0, 0xFFFFFFFF) if plan[c_] == "Zx" else (0, 0)
         t.append(k)
         h.append(hh)
         al.append(a)
@@ -177,7 +193,10 @@ def make_trace(tid, rng, nops=25, **opt):
     s = b.open()
     fresh = b.open()
     rec = record.Recorder(s, size_b, probe=fresh.readoffset, align=opt.get("align"))
-    record.random_ops(rec, rng, size_b, nops, unit=cs, big=min(6 * cs + 4096, 2 << 20))
+    if runs:
+        diskprop.whole_disk_ops(rec, rng, size_b, cs)
+        nops = 6
+    record.random_ops(rec, rng, size_b, nops, unit=cs, big=(size_b + 4096) if runs else min(6 * cs + 4096, 2 << 20))
     geo = b.geo(nfiles=2)
     timg = {"ext": ext, "datafile": datafile, "nc": nc, "s": S, "t": t, "h": h,
             "al_lo": [a & 0xFFFF for a in al], "al_hi": [a >> 16 for a in al],
